@@ -71,7 +71,7 @@ class AccessMixin(object):
     if ty.k != 'ref':
       raise Unsupported('attribute %s of %r (line %s)' % (attr, base, getattr(node, 'lineno', '?')))
     # None dereference
-    if ty.opt and not self.spec_depth:
+    if ty.opt and not self.spec_depth and attr != '__class__':
       for o in self.oblige_or_raise(st, cx, base.t != 0, 'AttributeError', node, 'None.%s' % attr):
         if isinstance(o[1], Exc):
           yield o
@@ -122,6 +122,10 @@ class AccessMixin(object):
       raise Unsupported('record method %s (line %s)' % (name, getattr(node, 'lineno', '?')))
 
   def _ref_attr(self, st, cx, base, attr, node):
+    if attr == '__class__':
+      f = z3.Function('class_of', I, I)
+      yield st, V(ANY, f(base.t))
+      return
     if attr in ('get', 'pop', 'items', 'keys', 'update', 'copy') and self.dictlike_info(base.ty) is not None:
       yield st, VBound('dictlike', attr, recv=base)
       return
@@ -177,6 +181,11 @@ class AccessMixin(object):
       if ('%s.%s' % (c, attr)) in self.reg.externs:
         yield st, VBound('extern', '%s.%s' % (c, attr), recv=base)
         return
+    # downcast: a field declared by exactly one subclass (the code has narrowed the type, e.g. by isinstance)
+    subs = [c for c in self.subclasses_of(cls) if c != cls and attr in self.class_info(c).fields]
+    if len(subs) == 1:
+      yield st, self.load_field(st, base.t, subs[0], attr)
+      return
     raise Unsupported('attribute %s.%s not declared (line %s)' % (cls, attr, getattr(node, 'lineno', '?')))
 
   def const_value(self, c):
@@ -497,7 +506,8 @@ class AccessMixin(object):
       m = {'int': ('int', 'bool'), 'float': ('real',), 'str': ('str',), 'bool': ('bool',),
            'list': ('list',), 'dict': ('dict',), 'set': ('set',), 'tuple': ('tuple',)}[cname]
       if k == 'any':
-        raise Unsupported('isinstance(any, %s)' % cname)
+        f = z3.Function('is_py_' + cname, I, z3.BoolSort())
+        return z3.And(v.t != 0, f(v.t))
       r = z3.BoolVal(k in m)
       if v.none is not None:
         r = z3.And(z3.Not(v.none), r)
